@@ -50,6 +50,9 @@ FileSize(n) == HdrSize + CountSize + RecSize * n
 RecOffset(i) == HdrSize + CountSize + RecSize * (i - 1)      \* 1-based record number
 
 SizeLaw(f, n) == f.nbytes = 84 + 50 * n /\ f.count = n /\ f.rem = 0 /\ Len(f.recs) = n
+\* the same law on a file logged without its records ("sz" lines: [nbytes, count, rem, nrecs], for
+\* triangle counts too large to judge record by record; 84 + 50 n stays below 2^31 for n < 4e7)
+SizeLawN(f, n) == f.nbytes = 84 + 50 * n /\ f.count = n /\ f.rem = 0 /\ f.nrecs = n
 
 (* ------------------------------- vectors ------------------------------- *)
 Abs(x) == IF x < 0 THEN 0 - x ELSE x
@@ -146,4 +149,15 @@ RwNormalOk(gen, f, f2, lat) ==
         ELSE ~f2.recs[t].nz /\ UnitAlong(f2.recs[t].n, gen[t].n)
 
 RwAttrOk(gen, f2) == \A t \in 1..Len(gen) : gen[t].a = 0 => f2.recs[t].a = 0
+
+(***************************************************************************)
+(* Record level API (stl.Read / stl.Write, "sb" lines).  Nothing stands    *)
+(* between the file and the records here, so "reproduces the triangle      *)
+(* records" is exact: what Read returns (bin, projected like a file's      *)
+(* records, normals as float32 bit patterns) IS the record list of the     *)
+(* file, attribute words included, and writing it again gives a file with  *)
+(* the same records.                                                       *)
+(***************************************************************************)
+BinRecordsOk(f, bin) == bin = f.recs
+BinRewriteOk(f, f2) == f2.recs = f.recs
 =============================================================================
